@@ -12,6 +12,7 @@ from valida.data import Data
 
 from .. import gen as G
 from ..common import Report, stream, digest, order_to_decisions, big
+from ..isolation import pristine_state
 from ..engine import Engine, Monitor, Scripted
 from ..terms import World, OP_CLS, COND_KIND, PART_CLS, snap
 
@@ -234,11 +235,12 @@ class Model:
     def leaf_vec(self, t, di):
         key = (repr(t), di)
         if key not in self.leaf_cache:
-            try:
-                fresh = World({"conds": [t], "docs": self.docs})
-                res = list(fresh.get("conds", 0).filter(fresh.get("docs", di)).result)
-            except Exception:
-                res = UNDEF
+            with pristine_state():
+                try:
+                    fresh = World({"conds": [t], "docs": self.docs})
+                    res = list(fresh.get("conds", 0).filter(fresh.get("docs", di)).result)
+                except Exception:
+                    res = UNDEF
             self.leaf_cache[key] = res
         return self.leaf_cache[key]
 
